@@ -87,6 +87,7 @@ def check_ethtx(pid, tier, seed, replay):
                 return 1
             log("replay: accepted")
             return 0
+        vlib.build("vh")
         run_mc(v, pid, w, tier)
         sz = SIZES[tier]
         d = w.sub("traces")
